@@ -45,7 +45,9 @@ def run_check(prop, tier, verdict):
     os.makedirs(outdir, exist_ok=True)
     os.makedirs(C.REPLAYS_TMP, exist_ok=True)
     jobs = []
-    nseeds = 3 if tier == "quick" else 12
+    # rapidcheck's memory grows with the number of cases of one run (about 35 MB per 1000 cases with
+    # ASan), so the thorough budget is spread over many 20000-case processes instead of a few long ones
+    nseeds = 3 if tier == "quick" else 72
     for name, exe in exes.items():
         for k in range(nseeds):
             jobs.append(dict(name=name, exe=exe, k=k, stats=os.path.join(outdir, "%s-%d.json" % (name, k)),
@@ -53,9 +55,21 @@ def run_check(prop, tier, verdict):
 
     def one(j):
         return C.run([j["exe"], "--out", j["stats"], "--replay-out", j["replay"], "--seed", str(seed * 100 + j["k"] + 1),
-                      "--cases", "20000" if tier == "quick" else "150000"], timeout=7200)
+                      "--cases", "20000"], timeout=7200)
 
     results = C.parallel(jobs, one)
+    # the deterministic part (exhaustive pair space, non-member and heterogeneous suites) is repeated by
+    # every process of a build; it is counted once per build in the evidence
+    det = {}
+    for name, exe in exes.items():
+        dst = os.path.join(outdir, "%s-det.json" % name)
+        C.run([exe, "--out", dst, "--replay-out", dst + ".replay", "--seed", "1", "--cases", "0", "--mode", "exh"], timeout=7200)
+        try:
+            with open(dst) as f:
+                d = json.load(f)
+            det[name] = (d["evaluations"], d["nontrivial"])
+        except (OSError, ValueError, KeyError):
+            det[name] = (0, 0)
     evals = nontriv = exh = 0
     distinct = {}
     tables = {}
@@ -74,9 +88,11 @@ def run_check(prop, tier, verdict):
             verdict.violation(dest, "cmp worker %s crashed: %s" % (j["name"], (out + err).strip().splitlines()[-1] if (out + err).strip() else ""))
             nviol += 1
             continue
-        evals += st["evaluations"]
-        nontriv += st["nontrivial"]
-        exh += st["exhaustive_evaluations"]
+        first = j["name"] not in distinct
+        evals += st["evaluations"] - (0 if first else min(det[j["name"]][0], st["evaluations"]))
+        nontriv += st["nontrivial"] - (0 if first else min(det[j["name"]][1], st["nontrivial"]))
+        if first:
+            exh += st["exhaustive_evaluations"]
         distinct[j["name"]] = st["nontrivial_exhaustive"]
         tables.setdefault(j["name"], {k: st[k] for k in ("table_int", "table_eqlt", "table_ord", "table_double")})
         if len(samples) < 5:
